@@ -16,14 +16,29 @@ import (
 // showing as wrong scans), no bad free, nothing leaked after Close; snapshot
 // scans stay exact while nodes are unlinked and freed around the readers.
 func TestC04B(t *testing.T) {
-	st := ev.Get("C04", "TestC04B")
-	rapid.Check(t, func(t *rapid.T) {
+	rapid.Check(t, writersReadersProp(ev.Get("C04", "TestC04B"), true))
+}
+
+// C01 under concurrency, schedule owned: the same rounds of controlled writers and snapshot readers
+// (mostly Go-managed memory, always >= 1 reader). Judged: every concurrent scan of a held snapshot equals
+// its content at creation, and every snapshot sealed after a round has Count() == its scan.
+func TestC01Conc(t *testing.T) {
+	rapid.Check(t, writersReadersProp(ev.Get("C01", "TestC01Conc"), false))
+}
+
+func writersReadersProp(st *ev.Stats, userMemory bool) func(t *rapid.T) {
+	return func(t *rapid.T) {
 		sched.SeedRand(t)
 		f := &failer{t: t, st: st}
 		nw := rapid.IntRange(2, 3).Draw(t, "writers")
 		nr := rapid.IntRange(0, 2).Draw(t, "readers")
 		kv := rapid.Bool().Draw(t, "kv")
-		c := newCW(f, kv, true, nw)
+		mm := userMemory
+		if !userMemory {
+			nr = rapid.IntRange(1, 2).Draw(t, "readers1")
+			mm = rapid.IntRange(0, 3).Draw(t, "mm") == 0
+		}
+		c := newCW(f, kv, mm, nw)
 		defer c.teardown()
 		keys := []string{"a", "b", "c", "d"}[:rapid.IntRange(2, 4).Draw(t, "nkeys")]
 		f.logf("c04b writers=%d readers=%d kv=%v keys=%v", nw, nr, kv, keys)
@@ -108,21 +123,28 @@ func TestC04B(t *testing.T) {
 					}
 				}
 			}
-			if c.arena.BadCount() > 0 {
+			if c.arena != nil && c.arena.BadCount() > 0 {
 				rep := c.arena.Report()
 				c.abandon()
 				f.failf("bad-free", "allocator recorded a bad free: %v", rep)
 			}
 		}
 		_ = freesBefore
-		frees := c.arena.Frees
+		frees := int64(0)
+		if c.arena != nil {
+			frees = c.arena.Frees
+		}
 		c.closeAllAndCollect(false)
 		c.shutdown()
-		st.Case(f.desc(), frees > 0 && c.Preempts > 0 && (c.overlaps > 0 || readScans > 0))
+		if userMemory {
+			st.Case(f.desc(), frees > 0 && c.Preempts > 0 && (c.overlaps > 0 || readScans > 0))
+		} else {
+			st.Case(f.desc(), readScans > 0 && c.Preempts > 0 && c.overlaps > 0)
+		}
 		st.AddExtra("blocks-freed-before-close", frees)
 		st.AddExtra("concurrent-reader-scans", int64(readScans))
 		st.AddExtra("sched-steps", int64(c.Steps))
-	})
+	}
 }
 
 func seqInts(n int) []int {
